@@ -446,3 +446,1025 @@ Proof.
       intro Hq. apply in_app_or in Hq as [Hq|Hq]; [specialize (Hl _ Hq); lia|exact (Hc1 Hq)].
     + replace (top_height cx2) with (top_height cx0) by congruence. exact H1.
 Qed.
+Definition fun_result (c' : code) (vs : vst) (ev : list event) (o : outcome) (s' : st) : Prop :=
+  match o with
+  | ONormal | OReturn => Term c' (length (stack vs)) c' vs (ev, VReturn, withst vs s')
+  | OBreak | OGoto _ => False
+  | _ => errclaim c' (length (stack vs)) c' vs ev o s'
+  end.
+
+Lemma fun_sim : forall f, P_scope f ->
+  forall b c' s ev o s' vs, compile_fun b = Some c' ->
+    run_scope f false b b s = Done (ev, o, s') -> sm s vs -> fun_result c' vs ev o s'.
+Proof.
+  intros f HP b c' s ev o s' vs Hc Hr Hsm.
+  rewrite compile_funA in Hc.
+  destruct (bin root_ctx 0 b true true []) as [[c0 n0]|] eqn:E; [|discriminate].
+  cbn in Hc. inversion Hc; subst c0. clear Hc.
+  assert (Hw : hide (c' = [] ++ c' ++ [])) by (unfold hide; rewrite app_nil_r; reflexivity).
+  pose proof (block_sim f HP b root_ctx 0 true true false [] c' n0 c' [] [] s ev o s' vs (length (stack vs))
+                (or_introl (conj eq_refl eq_refl)) ltac:(discriminate) ltac:(discriminate) (ctx_lt_root 0) ctx_inj_root E Hw
+                 ltac:(intros l []) hle_root Hr Hsm ltac:(cbn; lia)) as H.
+  rewrite app_nil_r in H.
+  assert (Hret : Reach c' (length (stack vs)) c' vs [IRet] (withst vs s') ev ->
+                 Term c' (length (stack vs)) c' vs (ev, VReturn, withst vs s')).
+  { intro HR.
+    pose proof (term_ret c' (length (stack vs)) [] (withst vs s') _ _ _
+                  (cleanup_nothing (stack (withst vs s')) (length (stack vs)) None ltac:(cbn; lia))) as T.
+    cbn [app] in T. apply HR in T. cbn [pre3] in T. rewrite app_nil_r in T. rewrite set_stack_same in T. exact T. }
+  destruct o; cbn [claimG fun_result] in *; try (apply Hret; exact H); try exact H;
+    destruct H as (L & h & Hj & _); discriminate.
+Qed.
+
+Lemma fun_result_abort : forall c' vs ev o s' w base (a : code),
+  (forall evV oV sV, Term c' (length (stack vs)) c' vs (evV, oV, sV) -> oV <> VReturn -> Term w base a vs (evV, oV, sV)) ->
+  base <= length (stack vs) ->
+  match o with OError _ | OClosed _ => True | _ => False end ->
+  fun_result c' vs ev o s' -> errclaim w base a vs ev o s'.
+Proof.
+  intros c' vs ev o s' w base a HT Hb Ho H.
+  destruct o; try contradiction; cbn [fun_result] in H;
+    destruct H as (evV & oV & sV & HT' & Hk & Hsm & Hc);
+    exists evV, oV, sV; (split; [apply HT; [exact HT'|destruct oV; try discriminate; contradiction]|]);
+    (split; [assumption|]); (split; [assumption|]); eapply creln_lower; eassumption.
+Qed.
+
+(* ---------------------------------------------------------------- leaving the scope of a local *)
+Section Local.
+  Variables (w : code) (base : nat).
+
+  (* a virtual exit X (ret, or cltrunc t; jump) with target T = base + t' *)
+  Lemma through_ret : forall vin v stk0 ev_r s_r A vs0,
+    stack vin = v :: stk0 -> base <= length stk0 ->
+    Reach w base A vs0 [IRet] (withst vin s_r) ev_r ->
+    forall o_r, err_of o_r = None -> (o_r = ONormal \/ o_r = OReturn \/ o_r = OBreak \/ exists l, o_r = OGoto l) ->
+    let cev := fst (close_var v o_r) in let o' := snd (close_var v o_r) in
+    (nonraising v = true /\ o' = o_r /\ Reach w base A vs0 [IRet] (set_stack (withst vin s_r) stk0) (ev_r ++ cev)) \/
+    (exists evV oV sV, o' = raise_in o_r (match v with VObj _ (Some h) => EUser h | _ => EMissing end) /\
+        Term w base A vs0 (evV, oV, sV) /\ kind o' oV /\ sm s_r sV /\
+        creln base evV oV (stack sV) (ev_r ++ cev) o' stk0).
+  Proof.
+    intros vin v stk0 ev_r s_r A vs0 Hs Hb HR o_r He Ho.
+    destruct (nonraising v) eqn:Hn.
+    - left. split; [reflexivity|]. split; [apply close_var_nonraising; assumption|].
+      eapply Reach_trans; [exact HR|].
+      pose proof (exit_ret_through w base [] (withst vin s_r) v stk0 Hs Hb Hn) as H.
+      pose proof (call_close_close_var v o_r) as Hcc. rewrite He in Hcc. rewrite Hcc in H. exact H.
+    - right. destruct v as [| |id [h|]|id]; try discriminate.
+      destruct (exit_ret_raising w base [] (withst vin s_r) id h stk0 Hs Hb) as (ev2 & stk2 & x & Hc & HT).
+      exists (ev_r ++ ([EvClose id None; EvRaise (EUser h)] ++ ev2)), (VError x), (set_stack (withst vin s_r) stk2).
+      split; [reflexivity|]. split; [apply (HR _ HT)|].
+      assert (Hcv : close_var (VObj id (Some h)) o_r = ([EvClose id None; EvRaise (EUser h)], OError (EUser h))).
+      { cbn. rewrite He. destruct Ho as [->|[->|[->|[l0 ->]]]]; reflexivity. }
+      rewrite Hcv. cbn [fst snd]. split; [exact I|]. split; [repeat split|].
+      cbn [stack set_stack]. rewrite app_assoc. eapply creln_after_exit; [|exact Hc]. lia.
+  Qed.
+
+  Lemma through_trunc : forall vin v stk0 ev_r s_r A vs0 t k,
+    stack vin = v :: stk0 -> base + t <= length stk0 ->
+    Reach w base A vs0 (IClTrunc t :: k) (withst vin s_r) ev_r ->
+    forall o_r, err_of o_r = None -> (o_r = ONormal \/ o_r = OReturn \/ o_r = OBreak \/ exists l, o_r = OGoto l) ->
+    let cev := fst (close_var v o_r) in let o' := snd (close_var v o_r) in
+    (nonraising v = true /\ o' = o_r /\ Reach w base A vs0 (IClTrunc t :: k) (set_stack (withst vin s_r) stk0) (ev_r ++ cev)) \/
+    (exists evV oV sV, o' = raise_in o_r (match v with VObj _ (Some h) => EUser h | _ => EMissing end) /\
+        Term w base A vs0 (evV, oV, sV) /\ kind o' oV /\ sm s_r sV /\
+        creln base evV oV (stack sV) (ev_r ++ cev) o' stk0).
+  Proof.
+    intros vin v stk0 ev_r s_r A vs0 t k Hs Hb HR o_r He Ho.
+    destruct (nonraising v) eqn:Hn.
+    - left. split; [reflexivity|]. split; [apply close_var_nonraising; assumption|].
+      eapply Reach_trans; [exact HR|].
+      pose proof (exit_trunc_through w base t k (withst vin s_r) v stk0 Hs Hb Hn) as H.
+      pose proof (call_close_close_var v o_r) as Hcc. rewrite He in Hcc. rewrite Hcc in H. exact H.
+    - right. destruct v as [| |id [h|]|id]; try discriminate.
+      destruct (exit_trunc_raising w base t k (withst vin s_r) id h stk0 Hs Hb) as (ev2 & stk2 & x & Hc & HT).
+      exists (ev_r ++ ([EvClose id None; EvRaise (EUser h)] ++ ev2)), (VError x), (set_stack (withst vin s_r) stk2).
+      split; [reflexivity|]. split; [apply (HR _ HT)|].
+      assert (Hcv : close_var (VObj id (Some h)) o_r = ([EvClose id None; EvRaise (EUser h)], OError (EUser h))).
+      { cbn. rewrite He. destruct Ho as [->|[->|[->|[l0 ->]]]]; reflexivity. }
+      rewrite Hcv. cbn [fst snd]. split; [exact I|]. split; [repeat split|].
+      cbn [stack set_stack]. rewrite app_assoc. eapply creln_after_exit; [|exact Hc]. lia.
+  Qed.
+End Local.
+
+(* ---------------------------------------------------------------- local statements *)
+Definition vs_in (vs : vst) (v : tbcv) : vst :=
+  match v with VPlain => vs | _ => set_stack vs (v :: stack vs) end.
+
+Lemma local_prefix : forall w base v A vs, (forall id, v <> VBad id) ->
+  Reach w base (local_code v ++ A) vs A (vs_in vs v) (open_var v).
+Proof.
+  intros w base v A vs Hv. destruct v as [| |id h|id]; cbn [local_code open_code open_var app vs_in].
+  - apply Reach_refl.
+  - apply step_push. discriminate.
+  - change [EvOpen id] with ([EvOpen id] ++ []). eapply Reach_trans; [apply step_open|apply step_push; discriminate].
+  - exfalso. eapply Hv. reflexivity.
+Qed.
+
+Lemma errkind_close_var : forall v o,
+  match o with OError _ | OClosed _ => True | _ => False end ->
+  match snd (close_var v o) with OError _ | OClosed _ => True | _ => False end.
+Proof. intros [| |id [h|]|id] o H; cbn; try exact H. destruct o; cbn in *; try contradiction; exact I. Qed.
+
+Lemma claimG_err_intro : forall w base cx fb a va post vb ev o s',
+  match o with OError _ | OClosed _ => True | _ => False end ->
+  errclaimG w base a va (stack vb) ev o s' -> claimG w base cx fb a va post vb ev o s'.
+Proof. intros w base cx fb a va post vb ev o s' Ho H. destruct o; try contradiction; exact H. Qed.
+
+Lemma leave_pushed : forall w base cx cx3 fb v A post vs vin ev_r o_r s_r,
+  vin = set_stack vs (v :: stack vs) -> hle cx -> length (stack vs) = base + top_height cx ->
+  (forall name, jump_target cx3 name = jump_target cx name) ->
+  claimG w base cx3 fb A vin (IClTrunc (top_height cx) :: post) vin ev_r o_r s_r ->
+  claimG w base cx fb A vin post vs (ev_r ++ fst (close_var v o_r)) (snd (close_var v o_r)) s_r.
+Proof.
+  intros w base cx cx3 fb v A post vs vin ev_r o_r s_r Hvin Hh H1 Hj C.
+  assert (Hs : stack vin = v :: stack vs) by (subst vin; reflexivity).
+  assert (Hst : forall s, set_stack (withst vin s) (stack vs) = withst vs s) by (intro; subst vin; reflexivity).
+  assert (Hb0 : base <= length (stack vs)) by lia.
+  (* the three non-error exits *)
+  assert (RET : forall o_r, err_of o_r = None -> (o_r = ONormal \/ o_r = OReturn \/ o_r = OBreak \/ exists l, o_r = OGoto l) ->
+            Reach w base A vin [IRet] (withst vin s_r) ev_r ->
+            (snd (close_var v o_r) = o_r /\ Reach w base A vin [IRet] (withst vs s_r) (ev_r ++ fst (close_var v o_r))) \/
+            (exists e, snd (close_var v o_r) = OError e /\
+               errclaimG w base A vin (stack vs) (ev_r ++ fst (close_var v o_r)) (OError e) s_r)).
+  { intros o He Ho HR.
+    destruct (through_ret w base vin v (stack vs) ev_r s_r A vin Hs Hb0 HR o He Ho)
+      as [(Hn & Ho' & HR') | (evV & oV & sV & Ho' & HT & Hk & Hsm & Hc)].
+    - left. split; [exact Ho'|]. rewrite Hst in HR'. exact HR'.
+    - right. assert (Ek : exists e, snd (close_var v o) = OError e).
+      { rewrite Ho'. destruct Ho as [->|[->|[->|[l0 ->]]]]; cbn; eauto. }
+      destruct Ek as [e Ee]. exists e. split; [exact Ee|]. rewrite Ee in *.
+      exists evV, oV, sV. auto. }
+  assert (TRUNC : forall o_r t k, err_of o_r = None -> (o_r = ONormal \/ o_r = OReturn \/ o_r = OBreak \/ exists l, o_r = OGoto l) ->
+            base + t <= length (stack vs) ->
+            Reach w base A vin (IClTrunc t :: k) (withst vin s_r) ev_r ->
+            (snd (close_var v o_r) = o_r /\ Reach w base A vin (IClTrunc t :: k) (withst vs s_r) (ev_r ++ fst (close_var v o_r))) \/
+            (exists e, snd (close_var v o_r) = OError e /\
+               errclaimG w base A vin (stack vs) (ev_r ++ fst (close_var v o_r)) (OError e) s_r)).
+  { intros o t k He Ho Ht HR.
+    destruct (through_trunc w base vin v (stack vs) ev_r s_r A vin t k Hs Ht HR o He Ho)
+      as [(Hn & Ho' & HR') | (evV & oV & sV & Ho' & HT & Hk & Hsm & Hc)].
+    - left. split; [exact Ho'|]. rewrite Hst in HR'. exact HR'.
+    - right. assert (Ek : exists e, snd (close_var v o) = OError e).
+      { rewrite Ho'. destruct Ho as [->|[->|[->|[l0 ->]]]]; cbn; eauto. }
+      destruct Ek as [e Ee]. exists e. split; [exact Ee|]. rewrite Ee in *.
+      exists evV, oV, sV. auto. }
+  destruct o_r; cbn [claimG] in C.
+  - (* normal *)
+    destruct fb.
+    + destruct (RET ONormal eq_refl (or_introl eq_refl) C) as [[E HR]|(e & E & HE)]; rewrite E; cbn [claimG]; assumption.
+    + destruct (TRUNC ONormal (top_height cx) post eq_refl (or_introl eq_refl) ltac:(lia) C) as [[E HR]|(e & E & HE)];
+        rewrite E; cbn [claimG]; [|assumption].
+      rewrite <- (app_nil_r (ev_r ++ _)). eapply Reach_trans; [exact HR|].
+      assert (Hl0 : length (stack (withst vs s_r)) <= base + top_height cx) by (rewrite stack_withst; lia).
+      pose proof (step_trunc_ok w base (top_height cx) post (withst vs s_r) [] (stack vs)
+                    (cleanup_nothing _ _ None Hl0)) as T.
+      exact T.
+  - (* break *)
+    destruct C as (L & h & Hjt & Hb & HR). rewrite Hj in Hjt.
+    pose proof (jump_target_le _ _ _ _ Hh Hjt) as Hle.
+    destruct (TRUNC OBreak h [IJump L] eq_refl (or_intror (or_intror (or_introl eq_refl))) ltac:(lia) HR) as [[E HR']|(e & E & HE)];
+      rewrite E; cbn [claimG]; [|assumption].
+    exists L, h. split; [assumption|]. split; [lia|assumption].
+  - (* goto *)
+    destruct C as (L & h & Hjt & Hb & HR). rewrite Hj in Hjt.
+    pose proof (jump_target_le _ _ _ _ Hh Hjt) as Hle.
+    destruct (TRUNC (OGoto l) h [IJump L] eq_refl (or_intror (or_intror (or_intror (ex_intro _ l eq_refl)))) ltac:(lia) HR) as [[E HR']|(e & E & HE)];
+      rewrite E; cbn [claimG]; [|assumption].
+    exists L, h. split; [assumption|]. split; [lia|assumption].
+  - (* return *)
+    destruct (RET OReturn eq_refl (or_intror (or_introl eq_refl)) C) as [[E HR]|(e & E & HE)]; rewrite E; cbn [claimG]; assumption.
+  - (* error *)
+    apply claimG_err_intro; [apply errkind_close_var; exact I|].
+    destruct C as (evV & oV & sV & HT & Hk & Hsm & Hc). exists evV, oV, sV.
+    split; [assumption|]. split; [apply kind_close_var; assumption|]. split; [assumption|].
+    apply creln_pop; [assumption|]. rewrite <- Hs. exact Hc.
+  - (* closed *)
+    apply claimG_err_intro; [apply errkind_close_var; exact I|].
+    destruct C as (evV & oV & sV & HT & Hk & Hsm & Hc). exists evV, oV, sV.
+    split; [assumption|]. split; [apply kind_close_var; assumption|]. split; [assumption|].
+    apply creln_pop; [assumption|]. rewrite <- Hs. exact Hc.
+Qed.
+
+Lemma leave_local : forall w base cx fb v A post vs ev_r o_r s_r,
+  (forall id, v <> VBad id) -> hle cx -> length (stack vs) = base + top_height cx ->
+  claim w base (local_ctx (push_ctx cx) v) fb A (pop_code (local_ctx (push_ctx cx) v) ++ post) (vs_in vs v) ev_r o_r s_r ->
+  claimG w base cx fb A (vs_in vs v) post vs (ev_r ++ fst (close_var v o_r)) (snd (close_var v o_r)) s_r.
+Proof.
+  intros w base cx fb v A post vs ev_r o_r s_r Hv Hh H1 C. unfold claim in C.
+  rewrite pop_code_local in C.
+  destruct v as [| |id hh|id].
+  - (* plain *) cbn [vs_in close_var fst snd app] in *. rewrite app_nil_r.
+    destruct o_r; cbn [claimG] in *; exact C.
+  - eapply leave_pushed; [reflexivity|assumption|assumption|intro name; apply jump_target_local|exact C].
+  - eapply leave_pushed; [reflexivity|assumption|assumption|intro name; apply jump_target_local|exact C].
+  - exfalso. eapply Hv. reflexivity.
+Qed.
+
+
+(* ---------------------------------------------------------------- leaving a scope with a back label in flight *)
+Lemma leave_local_s : forall backs w base cx fb v A post vs ev_r o_r s_r,
+  (forall id, v <> VBad id) -> hle cx -> length (stack vs) = base + top_height cx ->
+  sclaim backs w base (local_ctx (push_ctx cx) v) fb A (vs_in vs v) (pop_code (local_ctx (push_ctx cx) v) ++ post) (vs_in vs v) ev_r o_r s_r ->
+  sclaim backs w base cx fb A (vs_in vs v) post vs (ev_r ++ fst (close_var v o_r)) (snd (close_var v o_r)) s_r.
+Proof.
+  intros backs w base cx fb v A post vs ev_r o_r s_r Hv Hh H1 [C|(Ho & l & L & h & Hb & Hj & Hbd & HR)].
+  - left. apply leave_local; assumption.
+  - subst o_r. rewrite jump_target_local in Hj.
+    pose proof (jump_target_le _ _ _ _ Hh Hj) as Hle.
+    destruct v as [| |id hh|id].
+    + (* plain *) right. cbn [vs_in close_var fst snd] in *. rewrite app_nil_r.
+      split; [reflexivity|]. exists l, L, h. auto.
+    + (* nil *) right. cbn [close_var fst snd]. rewrite app_nil_r. split; [reflexivity|]. exists l, L, h.
+      split; [exact Hb|]. split; [exact Hj|]. split; [lia|].
+      pose proof (through_trunc w base (vs_in vs VNil) VNil (stack vs) ev_r s_r A (vs_in vs VNil) h [IJump L]
+                    eq_refl ltac:(lia) HR (OGoto l) eq_refl (or_intror (or_intror (or_intror (ex_intro _ l eq_refl)))))
+        as [(_ & _ & HR')|(evV & oV & sV & Ho' & _)]; [|cbn in Ho'; discriminate].
+      cbn [close_var fst] in HR'. rewrite app_nil_r in HR'. exact HR'.
+    + (* closable *)
+      pose proof (through_trunc w base (vs_in vs (VObj id hh)) (VObj id hh) (stack vs) ev_r s_r A (vs_in vs (VObj id hh)) h [IJump L]
+                    eq_refl ltac:(lia) HR (OGoto l) eq_refl (or_intror (or_intror (or_intror (ex_intro _ l eq_refl)))))
+        as [(Hn & Ho' & HR')|(evV & oV & sV & Ho' & HT & Hk & Hsm & Hc)].
+      * right. destruct hh; [discriminate|]. cbn [close_var fst snd err_of] in *.
+        split; [reflexivity|]. exists l, L, h. split; [exact Hb|]. split; [exact Hj|]. split; [lia|exact HR'].
+      * left. destruct hh as [e|]; cbn [close_var fst snd err_of raise_in] in *; [|discriminate Ho'].
+        exists evV, oV, sV. auto.
+    + exfalso. eapply Hv. reflexivity.
+Qed.
+Lemma close_var_forin : forall v o, close_var (forin_val v) o = close_var v o.
+Proof. intros [| |id h|id] o; reflexivity. Qed.
+
+Lemma eval_cond_true : forall s vs, sm s vs ->
+  (let (d, s1) := vnext vs in mkV (stack s1) (vds s1) (vyc s1) d) = withst vs (eval_cond true s).
+Proof.
+  intros s vs Hsm. rewrite (vnext_sm s vs Hsm). unfold eval_cond. destruct (next_decision s) as [d s1]. reflexivity.
+Qed.
+
+Lemma noec_nil : forall l, ~ In (ILabel l) (@nil instr).
+Proof. intros l []. Qed.
+Lemma noec_cond : forall l, ~ In (ILabel l) [ICond].
+Proof. intros l [H|[]]. discriminate. Qed.
+Lemma ctx_lt_loop : forall cx n, ctx_lt cx n -> ctx_lt (add_label (push_ctx cx) NBreak n) (n + 2).
+Proof.
+  intros cx n H. apply ctx_lt_add_label; [|lia]. eapply ctx_lt_mono; [apply ctx_lt_push; exact H|lia].
+Qed.
+
+
+(* ---------------------------------------------------------------- blocks *)
+Lemma stats_seq : forall f, P_stmt f -> P_stats f ->
+  forall t rest backs cx n tl fb endc ec c n' w pre post s ev o s' vs base,
+    is_local t = false -> erel endc ec fb -> cx <> [] -> ctx_lt cx n -> ctx_inj cx ->
+    VZ tl (BCons t rest) backs -> (endc = true \/ fb = true -> length (shapes (BCons t rest)) <= tl) ->
+    (forall l, In l backs -> get_label cx (NUser l) <> None) ->
+    compile_stats cx n tl fb ec (BCons t rest) = Some (c, n') -> hide (w = pre ++ c ++ post) ->
+    lab_lt pre n -> hle cx ->
+    run_block (S f) endc (BCons t rest) s = Done (ev, o, s') -> sm s vs ->
+    length (stack vs) = base + top_height cx ->
+    sclaim backs w base cx fb (c ++ post) vs post vs ev o s'.
+Proof.
+  intros f IHstmt IHstats t rest backs cx n tl fb endc ec c n' w pre post s ev o s' vs base
+         Hnl He Hne Hclt Hinj HVZ Hfull HBV Hc Hw Hl Hh Hr Hsm H1.
+  rewrite (compile_nonlocalA _ _ _ _ _ _ _ Hnl) in Hc.
+  assert (Er : run_block (S f) endc (BCons t rest) s =
+               bind (run_stmt f t s) (fun ev o s' =>
+                 match o with ONormal => prepend ev (run_block f endc rest s') | _ => Done (ev, o, s') end)).
+  { destruct t; try reflexivity. discriminate. }
+  rewrite Er in Hr. clear Er.
+  destruct (compile_stmt cx n t) as [[c1 n1]|] eqn:E1; [|discriminate]. cbn [obind] in Hc.
+  destruct (compile_stats cx n1 (pred tl) fb ec rest) as [[c2 n2]|] eqn:E2; [|discriminate].
+  cbn [obind] in Hc. inversion Hc; subst c n'. clear Hc.
+  destruct (run_stmt f t s) as [[[ev1 o1] s1]|] eqn:R1; [|discriminate]. cbn [bind] in Hr.
+  assert (Hw1 : hide (w = pre ++ c1 ++ (c2 ++ post))) by (unfold hide in *; rewrite Hw, <- !app_assoc; reflexivity).
+  pose proof (IHstmt t cx n c1 n1 w pre (c2 ++ post) s ev1 o1 s1 vs base Hne Hclt Hinj E1 Hw1 Hl Hh R1 Hsm H1) as C1.
+  rewrite <- app_assoc. unfold claim in *.
+  destruct o1; try (inversion Hr; subst; left; eapply claimG_abrupt; [intro; reflexivity|discriminate|exact C1]).
+  destruct (run_block f endc rest s1) as [[[ev2 o2] s2]|] eqn:R2; [|discriminate].
+  cbn [prepend] in Hr. inversion Hr; subst. clear Hr.
+  assert (RN : n <= n1 /\ lab_lt c1 n1).
+  { destruct (match t with SLabel _ => true | _ => false end) eqn:Elab.
+    - destruct t; try discriminate. cbn [compile_stmt] in E1.
+      destruct (get_label cx (NUser l)) as [x|] eqn:Eg; [|discriminate]. cbn [obind] in E1. inversion E1; subst.
+      split; [lia|]. intros y [Hy|[]]. inversion Hy; subst. eapply get_label_lt; eassumption.
+    - destruct (proj1 compile_labsA t cx n c1 n1 Hne ltac:(intros l ->; discriminate) E1) as (A & _ & B).
+      split; assumption. }
+  destruct RN as [Hn1 Hlt1].
+  assert (Hw2 : hide (w = (pre ++ c1) ++ c2 ++ post)) by (unfold hide in *; rewrite Hw1, <- app_assoc; reflexivity).
+  pose proof (IHstats rest backs cx n1 (pred tl) fb endc ec c2 n2 w (pre ++ c1) post s1 ev2 o s' (withst vs s1) base He Hne
+                (ctx_lt_mono _ _ _ Hclt Hn1) Hinj (VZ_tail_nonlocal _ _ _ _ HVZ)
+                ltac:(intro Hq; specialize (Hfull Hq); cbn [shapes length] in Hfull; lia) HBV E2 Hw2
+                (lab_lt_app _ _ _ (lab_lt_mono _ _ _ Hl Hn1) Hlt1) Hh R2 (sm_withst _ _) H1) as C2.
+  cbn [claimG] in C1. eapply sclaim_prepend; [exact C1|].
+  eapply sclaim_vb; [|exact C2]. reflexivity.
+Qed.
+
+Lemma local_ctx_top_labels : forall cx2 v, top_labels (local_ctx cx2 v) = top_labels cx2.
+Proof. intros [|s r] v; destruct v; reflexivity. Qed.
+
+Lemma pop_code_local_eq : forall cx cx2 v, cx2 <> [] -> tl cx2 = cx -> top_height cx2 = top_height cx ->
+  pop_code (local_ctx cx2 v) = pop_code (local_ctx (push_ctx cx) v).
+Proof. intros cx [|s2 r2] v Hne Ht Hh; [contradiction|]. cbn in Ht, Hh. subst r2. destruct v; cbn; rewrite ?Hh; reflexivity. Qed.
+
+Lemma hle_local_ctx : forall cx2 v, hle cx2 -> hle (local_ctx cx2 v).
+Proof. intros cx2 v H. destruct v; cbn [local_ctx]; try apply hle_add_height; exact H. Qed.
+
+Lemma stats_local : forall f, P_scope f ->
+  forall v rest backs cx n tl fb endc ec c n' w pre post s ev o s' vs base,
+    erel endc ec fb -> cx <> [] -> ctx_lt cx n -> ctx_inj cx ->
+    VZ tl (BCons (SLocal v) rest) backs -> (endc = true \/ fb = true -> length (shapes (BCons (SLocal v) rest)) <= tl) ->
+    (forall l, In l backs -> get_label cx (NUser l) <> None) ->
+    compile_stats cx n tl fb ec (BCons (SLocal v) rest) = Some (c, n') -> hide (w = pre ++ c ++ post) ->
+    lab_lt pre n -> hle cx ->
+    run_block (S f) endc (BCons (SLocal v) rest) s = Done (ev, o, s') -> sm s vs ->
+    length (stack vs) = base + top_height cx ->
+    sclaim backs w base cx fb (c ++ post) vs post vs ev o s'.
+Proof.
+  intros f IHscope v rest backs cx n tl fb endc ec c n' w pre post s ev o s' vs base
+         He Hne Hclt Hinj HVZ Hfull HBV Hc Hw Hl Hh Hr Hsm H1.
+  rewrite compile_localA in Hc.
+  destruct (get_labels (push_ctx cx) n (firstn (pred tl) (shapes rest))) as [[[cx2 n2] bo]|] eqn:EG; [|discriminate].
+  cbn [obind] in Hc.
+  destruct (compile_stats (local_ctx cx2 v) n2 (pred tl) fb ec rest) as [[cr nr]|] eqn:E; [|discriminate].
+  cbn [obind] in Hc. inversion Hc; subst c n'. clear Hc.
+  destruct (glA_basic _ _ _ _ _ _ (push_ctx_ne cx) EG) as (Hle & Htl & Hth & Hne2).
+  assert (Hpop : pop_code (local_ctx cx2 v) = pop_code (local_ctx (push_ctx cx) v)).
+  { apply pop_code_local_eq; [exact Hne2|exact Htl|exact Hth]. }
+  rewrite Hpop in *.
+  destruct (match v with VBad id => true | _ => false end) eqn:Hbad.
+  - destruct v as [| |id h|id]; try discriminate. cbn in Hr. inversion Hr; subst. clear Hr.
+    left. cbn [claimG]. exists [EvRaise EMissing], (VError EMissing), vs.
+    split.
+    { cbn [local_code open_code app].
+      pose proof (step_bad w base (IClPush (VBad id) :: (cr ++ pop_code (local_ctx (push_ctx cx) (VBad id))) ++ post) vs) as HB.
+      pose proof (HB _ (term_push_bad w base id _ vs)) as HT. cbn [pre3 app] in HT. exact HT. }
+    split; [exact I|]. split; [assumption|]. apply creln_refl. reflexivity.
+  - assert (Hv : forall id, v <> VBad id) by (intros id ->; discriminate).
+    assert (Er : run_block (S f) endc (BCons (SLocal v) rest) s =
+                 bind (run_scope f endc rest rest s) (fun ev o s' =>
+                   let (cev, o') := close_var v o in Done (open_var v ++ ev ++ cev, o', s'))).
+    { destruct v; try reflexivity. discriminate. }
+    rewrite Er in Hr. clear Er.
+    destruct (run_scope f endc rest rest s) as [[[ev_r o_r] s_r]|] eqn:Rr; [|discriminate]. cbn [bind] in Hr.
+    set (cx3 := local_ctx cx2 v) in *.
+    set (cxo := local_ctx (push_ctx cx) v) in *.
+    assert (Hne3 : cx3 <> []) by (apply local_ctx_ne2; exact Hne2).
+    assert (Hw' : hide (w = (pre ++ local_code v) ++ cr ++ (pop_code cxo ++ post))).
+    { unfold hide in *. rewrite Hw. cbn [app]. rewrite <- ?app_assoc. cbn [app]. rewrite <- ?app_assoc. reflexivity. }
+    assert (Hl' : lab_lt (pre ++ local_code v) n).
+    { apply lab_lt_app; [assumption|]. intros l Hin. exfalso. eapply local_code_nolab. exact Hin. }
+    assert (Hsm' : sm s (vs_in vs v)) by (destruct v; exact Hsm).
+    assert (Hth3 : top_height cx3 = top_height cxo).
+    { unfold cx3, cxo. rewrite (local_ctx_top_height _ _ Hne2), (local_ctx_top_height _ _ (push_ctx_ne cx)), Hth. reflexivity. }
+    assert (H1' : length (stack (vs_in vs v)) = base + top_height cx3).
+    { rewrite Hth3. unfold cxo. rewrite top_height_local. destruct v; cbn [vs_in stack set_stack length]; lia. }
+    assert (NL : nolocal []) by (unfold nolocal; intros t Hin; destruct Hin).
+    assert (E' : compile_stats cx3 n2 (pred tl - length (@nil stmt)) fb ec rest = Some (cr, nr)).
+    { cbn [length]. rewrite Nat.sub_0_r. exact E. }
+    assert (Hclt2 : ctx_lt cx2 n2) by exact (glA_ctx_lt _ _ _ _ _ _ (push_ctx_ne cx) (ctx_lt_push _ _ Hclt) EG).
+    assert (Hinj2 : ctx_inj cx2) by exact (glA_ctx_inj _ _ _ _ _ _ (push_ctx_ne cx) (ctx_lt_push _ _ Hclt) (ctx_inj_push _ Hinj) EG).
+    assert (BV3 : forall l, In l backs -> get_label cx3 (NUser l) <> None).
+    { intros l Hb. unfold cx3. rewrite local_ctx_get_label.
+      destruct (get_label cx (NUser l)) as [x|] eqn:Eg; [|exfalso; exact (HBV l Hb Eg)].
+      rewrite (glA_stable _ _ _ _ _ _ _ x (push_ctx_ne cx) EG Eg). discriminate. }
+    assert (NEW3 : forall l, In l (flab (firstn (pred tl) (shapes rest))) ->
+              exists x, scope_label (NUser l) (top_labels cx3) = Some x /\ n <= x < n2).
+    { intros l Hin. unfold cx3. rewrite local_ctx_top_labels. exact (glA_new _ _ _ _ _ _ l (push_ctx_ne cx) EG Hin). }
+    assert (TOPOLD : forall name, (forall l, name = NUser l -> ~ In l (flab (firstn (pred tl) (shapes rest)))) ->
+              scope_label name (top_labels cx3) = None).
+    { intros name Hn. unfold cx3. rewrite local_ctx_top_labels.
+      rewrite (glA_old _ _ _ _ _ _ name (push_ctx_ne cx) EG Hn). reflexivity. }
+    assert (SKIP : forall name, scope_label name (top_labels cx3) = None -> jump_target cx3 name = jump_target cxo name).
+    { intros name Hn. rewrite (jump_target_skip _ _ Hn). unfold cx3, cxo. rewrite local_ctx_tl, Htl.
+      rewrite jump_target_local. reflexivity. }
+    assert (OLD3 : forall name, (forall l, name = NUser l -> ~ In (SLabel l) (stmts rest)) -> jump_target cx3 name = jump_target cxo name).
+    { intros name Hn. apply SKIP. apply TOPOLD. intros l Hq Hin. apply (Hn l Hq).
+      apply shape_label_stmt. apply flab_in_shapes. eapply flab_firstn_incl. exact Hin. }
+    assert (NB3 : false = false -> forall l, In l backs -> scope_label (NUser l) (top_labels cx3) = None).
+    { intros _ l Hb. apply TOPOLD. intros l0 Hq. inversion Hq; subst l0.
+      eapply glA_vis; [apply push_ctx_ne| |exact EG]. exact (HBV l Hb). }
+    pose proof (IHscope rest [] rest backs false cxo cx3 n n2 (pred tl) fb endc ec cr nr w (pre ++ local_code v) (pop_code cxo ++ post)
+                  s ev_r o_r s_r (vs_in vs v) base eq_refl NL He Hne3 (ctx_lt_local_ctx _ _ _ Hclt2) (ctx_inj_local_ctx _ _ Hinj2)
+                  (VZ_tail_nonlocal _ _ _ _ HVZ)
+                  ltac:(intro Hq; specialize (Hfull Hq); cbn [shapes length] in Hfull; lia)
+                  BV3 NEW3 OLD3 SKIP (fun Hq => ltac:(discriminate Hq)) NB3
+                  E Hw' Hl' Hle (hle_local_ctx _ _ (hle_same (push_ctx cx) cx2 (push_ctx_ne cx) Hne2 Htl Hth (hle_push _ Hh)))
+                  Rr Hsm' H1' [] n2 cr eq_refl E' eq_refl) as C.
+    cbn beta iota in C.
+    pose proof (leave_local_s backs w base cx fb v (cr ++ pop_code cxo ++ post) post vs ev_r o_r s_r Hv Hh H1 C) as D.
+    destruct (close_var v o_r) as [cev o'] eqn:Ecv. cbn [fst snd] in D. injection Hr as <- <- <-.
+    rewrite <- !app_assoc.
+    eapply sclaim_prepend; [apply local_prefix; exact Hv|exact D].
+Qed.
+
+Lemma ctx_inj_loop : forall cx n, cx <> [] -> ctx_lt cx n -> ctx_inj cx -> ctx_inj (add_label (push_ctx cx) NBreak n).
+Proof.
+  intros cx n _ Hlt Hinj. eapply (ctx_inj_add_label _ NBreak n n); [apply push_ctx_ne| | |lia].
+  - apply ctx_inj_push. exact Hinj.
+  - apply ctx_lt_push. exact Hlt.
+Qed.
+
+(* ---------------------------------------------------------------- the induction *)
+Theorem sim_all : forall f, P_stmt f /\ P_stats f /\ P_scope f /\ P_loop f /\ P_loopR f.
+Proof.
+  induction f as [|f (IHstmt & IHstats & IHscope & IHloop & IHloopR)].
+  { repeat split; red; intros;
+      match goal with H : _ = Done _ |- _ => cbn in H; discriminate H end. }
+  pose proof (fun_sim f IHscope) as Hfun.
+  pose proof (block_sim f IHscope) as BS.
+  assert (PSCOPE : P_scope (S f)).
+  { intros W a cur backs bl cxo cx n0 n tl fb endc ec c n' w pre post s ev o s' vs base
+           HW Hnl He Hne Hclt Hinj HVZ Hfull HBV NEW OLD OLD2 BASE NB Hc Hw Hl Hn0 Hh Hr Hsm H1 ca nb cc Hseq Hcur Hcc.
+    cbn [run_scope] in Hr.
+    destruct (run_block f endc cur s) as [[[ev_b o_b] s_b]|] eqn:E; [|discriminate]. cbn [bind] in Hr.
+    destruct (seq_labsA a cx n ca nb Hne Hnl Hseq) as (Hle_a & Hla).
+    assert (LL : lab_lt (pre ++ ca) nb).
+    { apply lab_lt_app; [eapply lab_lt_mono; [exact Hl|lia]|].
+      intros x Hx. destruct (Hla x Hx) as [Hr0|(l2 & _ & Hg)]; [lia|].
+      pose proof (get_label_lt _ _ _ _ Hclt Hg). lia. }
+    assert (Hw' : hide (w = (pre ++ ca) ++ cc ++ post)).
+    { unfold hide in *. rewrite Hw, Hcc, <- !app_assoc. reflexivity. }
+    assert (Hshape : length (shapes W) = length a + length (shapes cur)).
+    { rewrite HW, shapes_bapp, app_length, map_length. reflexivity. }
+    pose proof (IHstats cur backs cx nb (tl - length a) fb endc ec cc n' w (pre ++ ca) post s ev_b o_b s_b vs base
+                  He Hne (ctx_lt_mono _ _ _ Hclt Hle_a) Hinj (VZ_suffix a tl W cur backs HW HVZ)
+                  ltac:(intro Hq; specialize (Hfull Hq); lia) HBV Hcur Hw' LL Hh E Hsm H1) as Cb.
+    (* result constructors *)
+    assert (LIFT : forall ev1 o1 s1 vb, claimG w base cxo fb (cc ++ post) vs post vb ev1 o1 s1 ->
+              if bl then claimG w base cxo fb (cc ++ post) vs post vb ev1 o1 s1
+              else sclaim backs w base cxo fb (cc ++ post) vs post vb ev1 o1 s1).
+    { intros. destruct bl; [assumption|left; assumption]. }
+    assert (PREP : forall a1 va1 e1 e2 o2 s2 vb,
+              Reach w base (cc ++ post) vs a1 va1 e1 -> stack vb = stack vs ->
+              (if bl then claimG w base cxo fb a1 va1 post vb e2 o2 s2 else sclaim backs w base cxo fb a1 va1 post vb e2 o2 s2) ->
+              if bl then claimG w base cxo fb (cc ++ post) vs post vs (e1 ++ e2) o2 s2
+              else sclaim backs w base cxo fb (cc ++ post) vs post vs (e1 ++ e2) o2 s2).
+    { intros a1 va1 e1 e2 o2 s2 vb HR Hs H. destruct bl.
+      - eapply claimG_prepend; [exact HR|]. eapply claimG_vb; [exact Hs|exact H].
+      - eapply sclaim_prepend; [exact HR|]. eapply sclaim_vb; [exact Hs|exact H]. }
+    (* a back label in flight: converted at the base scope, passed on otherwise *)
+    assert (FIN : forall ev2 s2 l L h, In l backs -> jump_target cx (NUser l) = Some (L, h) ->
+              Reach w base (cc ++ post) vs [IClTrunc h; IJump L] (withst vs s2) ev2 ->
+              if bl then claimG w base cxo fb (cc ++ post) vs post vs ev2 ONormal s2
+              else sclaim backs w base cxo fb (cc ++ post) vs post vs ev2 ONormal s2).
+    { intros ev2 s2 l L h Hb Hj HR. destruct bl.
+      - destruct (BASE eq_refl l Hb) as (L0 & HL0 & Hfb & z & AL & Hz). subst fb.
+        rewrite (jump_target_top cx (NUser l) L0 Hne HL0) in Hj. inversion Hj; subst L h. clear Hj.
+        cbn [claimG]. rewrite <- (app_nil_r ev2). eapply Reach_trans; [exact HR|].
+        assert (Hl0 : length (stack (withst vs s2)) <= base + top_height cx) by (rewrite stack_withst; lia).
+        pose proof (step_trunc_ok w base (top_height cx) [IJump L0] (withst vs s2) [] (stack vs) (cleanup_nothing _ _ None Hl0)) as T1.
+        change (set_stack (withst vs s2) (stack vs)) with (withst vs s2) in T1.
+        pose proof (step_jump w base L0 [] (z ++ post) (withst vs s2) AL) as T2.
+        pose proof (noop_reach w base (top_height cx) z post (withst vs s2) Hz Hl0) as T3.
+        exact (Reach_trans w base _ _ _ _ _ _ [] [] T1 (Reach_trans w base _ _ _ _ _ _ [] [] T2 T3)).
+      - right. split; [reflexivity|]. exists l, L, h. split; [exact Hb|].
+        pose proof (NB eq_refl l Hb) as Hn.
+        split; [rewrite <- (OLD2 _ Hn); exact Hj|]. split; [|exact HR].
+        pose proof (jump_target_le _ _ _ _ Hh Hj). lia. }
+    destruct Cb as [Cb|(Ho & l & L & h & Hb & Hj & Hbd & HR)].
+    2:{ subst o_b. injection Hr as <- <- <-. eapply FIN; eassumption. }
+    assert (NOGOTO : (forall l, o_b <> OGoto l) -> Done (ev_b, o_b, s_b) = Done (ev, o, s') ->
+                     if bl then claimG w base cxo fb (cc ++ post) vs post vs ev o s'
+                     else sclaim backs w base cxo fb (cc ++ post) vs post vs ev o s').
+    { intros Hng Hq. injection Hq as <- <- <-. apply LIFT. eapply claimG_ctx; [|exact Cb].
+      destruct o_b; cbn [ctx_agree]; try exact I.
+      - apply OLD. intros l Hq. discriminate.
+      - exfalso. eapply Hng. reflexivity. }
+    destruct o_b; try (apply NOGOTO; [intros l0; discriminate|exact Hr]).
+    destruct (find_label l W) as [b'|] eqn:Ef.
+    - destruct (find_label_split l W b' Ef) as (a' & HW' & Hnotin).
+      cbn [claimG] in Cb. destruct Cb as (L & h & Hj & Hb & HR).
+      pose proof (jump_target_get_label _ _ _ _ Hj) as HgL.
+      pose proof Hc as Hc0. rewrite HW' in Hc0.
+      destruct (run_scope f endc W b' s_b) as [[[ev2 o2] s2]|] eqn:R2; [|discriminate].
+      cbn [prepend] in Hr.
+      destruct (Nat.lt_ge_cases (length a') tl) as [Hlt|Hge].
+      + destruct (nolocal_dec a') as [Hnl'|Hnl'].
+        2:{ exfalso. eapply deeper_not_visible; [exact Hne|exact Hc0|exact Hnl'|exact Hlt|]. rewrite HgL. discriminate. }
+        (* a label of this scope: restart there *)
+        assert (Hin : In l (flab (firstn tl (shapes W)))) by (rewrite HW'; apply flab_firstn_here; assumption).
+        destruct (NEW l Hin) as (x & Hx & Hxr).
+        rewrite (jump_target_top cx (NUser l) x Hne Hx) in Hj. inversion Hj; subst L h. clear Hj.
+        destruct (stats_split a' cx n tl fb ec _ c n' Hnl' Hc0) as (ca' & nb' & cb0 & Hseq' & Hcb0 & Hc').
+        rewrite (compile_nonlocalA cx nb' (tl - length a') fb ec (SLabel l) b' eq_refl) in Hcb0.
+        cbn [compile_stmt] in Hcb0. rewrite (get_label_top cx (NUser l) x Hne Hx) in Hcb0. cbn [obind] in Hcb0.
+        destruct (compile_stats cx nb' (pred (tl - length a')) fb ec b') as [[cb' n2]|] eqn:Eb'; [|discriminate].
+        cbn [obind app] in Hcb0. inversion Hcb0; subst cb0 n2. clear Hcb0.
+        destruct (seq_labsA a' cx n ca' nb' Hne Hnl' Hseq') as (Hle_a' & Hla').
+        assert (AL : after_label x w = Some (cb' ++ post)).
+        { pose proof Hw as Hw0. unfold hide in Hw0. rewrite Hw0, Hc'.
+          replace (pre ++ (ca' ++ ILabel x :: cb') ++ post) with ((pre ++ ca') ++ ILabel x :: (cb' ++ post))
+            by (rewrite <- !app_assoc; reflexivity).
+          rewrite after_label_skip; [apply after_label_here|].
+          intro Hq. apply in_app_or in Hq as [Hq|Hq].
+          - specialize (Hl _ Hq). lia.
+          - destruct (Hla' x Hq) as [Hr0|(l2 & Hl2 & Hg)]; [lia|].
+            pose proof (Hinj _ _ _ Hg (get_label_top cx (NUser l) x Hne Hx)) as Hq2. inversion Hq2; subst l2.
+            exact (Hnotin Hl2). }
+        assert (HW2 : W = bapp (a' ++ [SLabel l]) b') by (rewrite bapp_app; exact HW').
+        assert (Hnl2 : nolocal (a' ++ [SLabel l])).
+        { intros t Ht. apply in_app_or in Ht as [Ht|[<-|[]]]; [apply Hnl'; exact Ht|reflexivity]. }
+        assert (Hseq2 : compile_seq cx n (a' ++ [SLabel l]) = Some (ca' ++ [ILabel x], nb')).
+        { eapply compile_seq_app; [exact Hseq'|]. cbn [compile_seq compile_stmt].
+          rewrite (get_label_top cx (NUser l) x Hne Hx). reflexivity. }
+        assert (Hcur2 : compile_stats cx nb' (tl - length (a' ++ [SLabel l])) fb ec b' = Some (cb', n')).
+        { rewrite app_length. cbn [length]. replace (tl - (length a' + 1)) with (pred (tl - length a')) by lia. exact Eb'. }
+        assert (Hcc2 : c = (ca' ++ [ILabel x]) ++ cb') by (rewrite Hc', <- app_assoc; reflexivity).
+        pose proof (IHscope W (a' ++ [SLabel l]) b' backs bl cxo cx n0 n tl fb endc ec c n' w pre post s_b ev2 o2 s2 (withst vs s_b) base
+                      HW2 Hnl2 He Hne Hclt Hinj HVZ Hfull HBV NEW OLD OLD2 BASE NB Hc Hw Hl Hn0 Hh R2 (sm_withst _ _) H1
+                      (ca' ++ [ILabel x]) nb' cb' Hseq2 Hcur2 Hcc2) as C2.
+        injection Hr as <- <- <-.
+        assert (Hl0 : length (stack (withst vs s_b)) <= base + top_height cx) by (rewrite stack_withst; lia).
+        pose proof (step_trunc_ok w base (top_height cx) [IJump x] (withst vs s_b) [] (stack vs) (cleanup_nothing _ _ None Hl0)) as T1.
+        change (set_stack (withst vs s_b) (stack vs)) with (withst vs s_b) in T1.
+        pose proof (step_jump w base x [] (cb' ++ post) (withst vs s_b) AL) as T2.
+        pose proof (Reach_trans w base _ _ _ _ _ _ ev_b ([] ++ []) HR (Reach_trans w base _ _ _ _ _ _ [] [] T1 T2)) as T.
+        cbn [app] in T. rewrite app_nil_r in T.
+        eapply PREP; [exact T|apply stack_withst|exact C2].
+      + (* a back label of the enclosing block: the void tail, the jump is still to be performed *)
+        destruct (HVZ a' (SLabel l) b' HW' Hge) as ((l0 & El & Hbk) & Hlb). inversion El; subst l0.
+        assert (Hendc : endc = false).
+        { destruct endc; [|reflexivity]. exfalso. specialize (Hfull (or_introl eq_refl)).
+          rewrite HW', shapes_bapp, app_length, map_length in Hfull. cbn in Hfull. lia. }
+        subst endc.
+        destruct (void_run_scope b' W f s_b ev2 o2 s2 Hlb R2) as (-> & -> & ->).
+        injection Hr as <- <- <-. rewrite app_nil_r.
+        eapply FIN; eassumption.
+    - injection Hr as <- <- <-. apply LIFT. eapply claimG_ctx; [|exact Cb]. cbn [ctx_agree].
+      apply OLD. intros l0 Hq. inversion Hq; subst l0. apply find_label_none_stmts. exact Ef. }
+  assert (PSTATS : P_stats (S f)).
+  { intros b backs cx n tl fb endc ec c n' w pre post s ev o s' vs base He Hne Hclt Hinj HVZ Hfull HBV Hc Hw Hl Hh Hr Hsm H1.
+    destruct b as [|r|t rest].
+    - cbn in Hr. inversion Hr; subst. cbn [compile_stats] in Hc. inversion Hc; subst.
+      left. cbn [claimG].
+      destruct He as [[-> ->]|[-> [-> ->]]].
+      + cbn [eval_cond]. rewrite (withst_sm _ _ Hsm).
+        destruct fb; cbn [app]; [apply Reach_ret_any|apply Reach_refl].
+      + cbn [app]. rewrite <- (eval_cond_true s vs Hsm). apply step_cond.
+    - destruct r as [|body].
+      + cbn in Hr. inversion Hr; subst. cbn [compile_stats] in Hc. inversion Hc; subst.
+        left. cbn [claimG app]. rewrite (withst_sm _ _ Hsm). apply Reach_ret_any.
+      + rewrite compile_retcall_eq in Hc.
+        destruct (compile_fun body) as [c'|] eqn:Ef; [|discriminate]. cbn [obind] in Hc.
+        cbn [run_block] in Hr.
+        destruct (run_scope f false body body s) as [[[ev0 o0] s0]|] eqn:E; [|discriminate]. cbn [bind] in Hr.
+        pose proof (Hfun body c' s ev0 o0 s0 vs Ef E Hsm) as Hres.
+        left.
+        destruct (Nat.eqb_spec (top_height cx) 0) as [Hz|Hz]; inversion Hc; subst c n'; clear Hc.
+        * assert (Hlen : length (stack vs) = base) by lia.
+          assert (TT : forall R, Term c' (length (stack vs)) c' vs R -> Term w base ([ITailCall c'] ++ post) vs R).
+          { intros R HT. apply term_tailcall; [lia|exact HT]. }
+          destruct o0; cbn [fun_outcome] in Hr; injection Hr as <- <- <-; cbn [fun_result claimG] in *; try contradiction.
+          -- apply Reach_of_Term_ret; [rewrite stack_withst; lia|]. apply TT. exact Hres.
+          -- apply Reach_of_Term_ret; [rewrite stack_withst; lia|]. apply TT. exact Hres.
+          -- destruct Hres as (evV & oV & sV & HT & Hk & Hs & Hcr). exists evV, oV, sV.
+             split; [apply TT; exact HT|]. rewrite Hlen in Hcr. auto.
+          -- destruct Hres as (evV & oV & sV & HT & Hk & Hs & Hcr). exists evV, oV, sV.
+             split; [apply TT; exact HT|]. rewrite Hlen in Hcr. auto.
+        * destruct o0; cbn [fun_outcome] in Hr; injection Hr as <- <- <-; cbn [fun_result claimG] in *; try contradiction.
+          -- rewrite <- (app_nil_r ev0). eapply Reach_trans; [apply step_call_ret; exact Hres|apply Reach_ret_any].
+          -- rewrite <- (app_nil_r ev0). eapply Reach_trans; [apply step_call_ret; exact Hres|apply Reach_ret_any].
+          -- eapply (fun_result_abort c' vs _ _ _ w base); cycle 3.
+             { exact Hres. }
+             { intros evV oV sV HT Ho. apply term_call_abort; assumption. }
+             { lia. }
+             { exact I. }
+          -- eapply (fun_result_abort c' vs _ _ _ w base); cycle 3.
+             { exact Hres. }
+             { intros evV oV sV HT Ho. apply term_call_abort; assumption. }
+             { lia. }
+             { exact I. }
+    - destruct (is_local t) eqn:Eloc.
+      + destruct t; try discriminate. eapply (stats_local f IHscope); eassumption.
+      + eapply (stats_seq f IHstmt IHstats); eassumption. }
+  assert (PLOOP : P_loop (S f)).
+  { intros b cxb nb cb n' w pre tailc Ll Lb nt s ev o s' vs base cxo Hne Hclt Hinj Hc Hw AL1 AL0 Hl Hh Hj Hr Hsm H1 Hgo.
+    cbn [run_loop] in Hr.
+    destruct (next_decision s) as [d s1] eqn:Ed.
+    pose proof (vnext_sm s vs Hsm) as Hvn. rewrite Ed in Hvn. cbn [fst snd] in Hvn.
+    destruct d.
+    - destruct (run_scope f false b b s1) as [[[ev_b o_b] s_b]|] eqn:Rb; [|discriminate]. cbn [bind] in Hr.
+      pose proof (BS b cxb nb true false false [] cb n' w pre ([IJump Ll; ILabel Lb] ++ tailc)
+                    s1 ev_b o_b s_b (withst vs s1) base (or_introl (conj eq_refl eq_refl)) ltac:(discriminate) Hne Hclt Hinj Hc Hw Hl Hh Rb (sm_withst _ _) H1) as C.
+      assert (STEP : Reach w base (IJumpIf Lb nt false :: cb ++ [IJump Ll; ILabel Lb] ++ tailc) vs
+                       (cb ++ [IJump Ll; ILabel Lb] ++ tailc) (withst vs s1) []).
+      { eapply step_jumpif_not; [exact Hvn|reflexivity]. }
+      change ev with ([] ++ ev). eapply claimG_prepend; [exact STEP|].
+      eapply claimG_vb; [apply (stack_withst vs s1)|].
+      destruct o_b; cbn [claimG] in C.
+      + destruct (run_loop f false b s_b) as [[[ev2 o2] s2]|] eqn:R2; [|discriminate].
+        cbn [prepend] in Hr.
+        assert (Hgo2 : forall l, o2 = OGoto l -> jump_target cxb (NUser l) = jump_target cxo (NUser l)).
+        { intros l ->. apply Hgo. injection Hr as _ <- _. reflexivity. }
+        pose proof (IHloop b cxb nb cb n' w pre tailc Ll Lb nt s_b ev2 o2 s2 (withst vs s_b) base cxo
+                      Hne Hclt Hinj Hc Hw AL1 AL0 Hl Hh Hj R2 (sm_withst _ _) H1 Hgo2) as C2.
+        injection Hr as <- <- <-.
+        eapply claimG_prepend; [exact C|].
+        change ev2 with ([] ++ ev2). eapply claimG_prepend; [eapply step_jump; exact AL1|].
+        eapply claimG_vb; [|exact C2]. reflexivity.
+      + injection Hr as <- <- <-. cbn [claimG].
+        destruct C as (L & h & Hj' & Hb & HR). rewrite Hj in Hj'. inversion Hj'; subst L h. clear Hj'.
+        rewrite <- (app_nil_r ev_b). eapply Reach_trans; [exact HR|].
+        change (@nil event) with (@nil event ++ []).
+        eapply Reach_trans.
+        * assert (Hl0 : length (stack (withst vs s_b)) <= base + top_height cxb) by (rewrite stack_withst; lia).
+          exact (step_trunc_ok w base (top_height cxb) [IJump Lb] (withst vs s_b) [] (stack vs) (cleanup_nothing _ _ None Hl0)).
+        * eapply step_jump. exact AL0.
+      + injection Hr as <- <- <-. cbn [claimG]. rewrite <- (Hgo l eq_refl). exact C.
+      + injection Hr as <- <- <-. cbn [claimG]. exact C.
+      + injection Hr as <- <- <-. cbn [claimG]. exact C.
+      + injection Hr as <- <- <-. cbn [claimG]. exact C.
+    - injection Hr as <- <- <-. cbn [claimG].
+      eapply step_jumpif_taken; [exact Hvn|reflexivity|exact AL0]. }
+  assert (PLOOPR : P_loopR (S f)).
+  { intros b cx2 nb cb n' w pre post Ll Lb s ev o s' vs base cxo Hne Hclt Hinj Hc Hw AL1 AL0 Hl Hh Hj Hr Hsm H1 Hgo.
+    cbn [run_loop] in Hr.
+    destruct (run_scope f true b b s) as [[[ev_b o_b] s_b]|] eqn:Rb; [|discriminate]. cbn [bind] in Hr.
+    pose proof (BS b cx2 nb false false true [ICond] cb n' w pre ([IJumpLast Ll false; ILabel Lb] ++ post)
+                  s ev_b o_b s_b vs base (or_intror (conj eq_refl (conj eq_refl eq_refl))) (fun _ => eq_refl) Hne Hclt Hinj Hc Hw Hl Hh Rb Hsm H1) as C.
+    destruct o_b; cbn [claimG] in C.
+    - cbn [andb] in Hr.
+      destruct (negb (lastc s_b)) eqn:Elc.
+      + injection Hr as <- <- <-. cbn [claimG].
+        rewrite <- (app_nil_r ev_b). eapply Reach_trans; [exact C|].
+        change (@nil event) with (@nil event ++ []).
+        eapply Reach_trans; [apply step_jumplast_not; cbn; destruct (lastc s_b); [discriminate|reflexivity]|apply step_label].
+      + destruct (run_loop f true b s_b) as [[[ev2 o2] s2]|] eqn:R2; [|discriminate].
+        cbn [prepend] in Hr.
+        assert (Hgo2 : forall l, o2 = OGoto l -> jump_target cx2 (NUser l) = jump_target cxo (NUser l)).
+        { intros l ->. apply Hgo. injection Hr as _ <- _. reflexivity. }
+        pose proof (IHloopR b cx2 nb cb n' w pre post Ll Lb s_b ev2 o2 s2 (withst vs s_b) base cxo
+                      Hne Hclt Hinj Hc Hw AL1 AL0 Hl Hh Hj R2 (sm_withst _ _) H1 Hgo2) as C2.
+        injection Hr as <- <- <-.
+        eapply claimG_prepend; [exact C|].
+        change ev2 with ([] ++ ev2).
+        eapply claimG_prepend; [eapply step_jumplast_taken; [cbn; destruct (lastc s_b); [reflexivity|discriminate]|exact AL1]|].
+        eapply claimG_vb; [|exact C2]. reflexivity.
+    - injection Hr as <- <- <-. cbn [claimG].
+      destruct C as (L & h & Hj' & Hb & HR). rewrite Hj in Hj'. inversion Hj'; subst L h. clear Hj'.
+      rewrite <- (app_nil_r ev_b). eapply Reach_trans; [exact HR|].
+      change (@nil event) with (@nil event ++ []).
+      eapply Reach_trans.
+      + assert (Hl0 : length (stack (withst vs s_b)) <= base + top_height cx2) by (rewrite stack_withst; lia).
+        exact (step_trunc_ok w base (top_height cx2) [IJump Lb] (withst vs s_b) [] (stack vs) (cleanup_nothing _ _ None Hl0)).
+      + eapply step_jump. exact AL0.
+    - injection Hr as <- <- <-. cbn [claimG]. rewrite <- (Hgo l eq_refl). exact C.
+    - injection Hr as <- <- <-. cbn [claimG]. exact C.
+    - injection Hr as <- <- <-. cbn [claimG]. exact C.
+    - injection Hr as <- <- <-. cbn [claimG]. exact C. }
+  assert (PSTMT : P_stmt (S f)).
+  { intros t cx n c n' w pre post s ev o s' vs base Hne Hclt Hinj Hc Hw Hl Hh Hr Hsm H1.
+    unfold claim.
+    assert (JUMP : forall name, compile_stmt cx n t = obind (emit_jump cx name) (fun c => Some (c, n)) ->
+              exists L h, jump_target cx name = Some (L, h) /\ base + h <= length (stack vs) /\
+                          Reach w base (c ++ post) vs [IClTrunc h; IJump L] vs [] /\ n' = n).
+    { intros name Hq. rewrite Hq in Hc. unfold emit_jump in Hc. rewrite emit_jump_from_target in Hc.
+      destruct (jump_target cx name) as [[L h]|] eqn:Ej; [|discriminate]. cbn [obind] in Hc. inversion Hc; subst.
+      pose proof (jump_target_le _ _ _ _ Hh Ej) as Hle.
+      exists L, h. split; [reflexivity|]. split; [lia|]. split; [|reflexivity].
+      unfold emit_truncate. destruct (Nat.ltb_spec h (top_height cx)).
+      + cbn [app]. apply Reach_trunc_jump_any.
+      + cbn [app]. apply Reach_jump_virtual. lia. }
+    destruct t.
+    - discriminate Hc.
+    - (* SDo *)
+      rewrite compile_doA in Hc.
+      destruct (bin (push_ctx cx) n b true false []) as [[cb nb]|] eqn:E; [|discriminate].
+      cbn [obind] in Hc. rewrite pop_code_push, app_nil_r in Hc. inversion Hc; subst. clear Hc.
+      cbn [run_stmt] in Hr.
+      pose proof (BS b (push_ctx cx) n true false false [] c n' w pre post s ev o s' vs base
+                    (or_introl (conj eq_refl eq_refl)) ltac:(discriminate) (push_ctx_ne cx) (ctx_lt_push _ _ Hclt) (ctx_inj_push _ Hinj) E Hw Hl (hle_push _ Hh) Hr Hsm H1) as C.
+      eapply claimG_ctx; [|exact C]. destruct o; cbn [ctx_agree]; try exact I; reflexivity.
+    - (* SLoop *)
+      destruct k as [| |v].
+      + (* while *)
+        rewrite compile_whileA in Hc. cbv zeta in Hc.
+        destruct (bin _ (n + 2) b true false []) as [[cb nb]|] eqn:E; [|discriminate].
+        cbn [obind] in Hc. rewrite pop_code_push, app_nil_r in Hc.
+        assert (Hp : pop_code (add_label (push_ctx cx) NBreak n) = []).
+        { cbn. unfold emit_truncate. rewrite Nat.ltb_irrefl. reflexivity. }
+        rewrite Hp, app_nil_r in Hc. inversion Hc; subst c n'. clear Hc.
+        cbn [run_stmt] in Hr.
+        destruct (bin_rng b _ _ _ _ _ _ _ (proj1 (proj2 compile_labsA) b) (push_ctx_ne _) noec_nil E) as (Hn & Hge & Hlt).
+        assert (AL1 : after_label (n + 1) w = Some (IJumpIf n true false :: cb ++ [IJump (n + 1); ILabel n] ++ post)).
+        { pose proof Hw as Hw0. unfold hide in Hw0. rewrite Hw0. rewrite after_label_skip; [|intro Hin; specialize (Hl _ Hin); lia].
+          cbn [app]. rewrite after_label_here. rewrite <- app_assoc. reflexivity. }
+        assert (AL0 : after_label n w = Some post).
+        { pose proof Hw as Hw0. unfold hide in Hw0. rewrite Hw0. rewrite after_label_skip; [|intro Hin; specialize (Hl _ Hin); lia].
+          cbn [app after_label]. destruct (Nat.eqb_spec n (n + 1)); [lia|].
+          rewrite <- app_assoc. rewrite after_label_skip; [|intro Hin; specialize (Hge _ Hin); lia].
+          cbn [app after_label]. rewrite Nat.eqb_refl. reflexivity. }
+        assert (Hw' : hide (w = (pre ++ [ILabel (n + 1); IJumpIf n true false]) ++ cb ++ ([IJump (n + 1); ILabel n] ++ post))).
+        { unfold hide in *. rewrite Hw. cbn [app]. rewrite <- ?app_assoc. cbn [app]. rewrite <- ?app_assoc. reflexivity. }
+        assert (Hl' : lab_lt (pre ++ [ILabel (n + 1); IJumpIf n true false]) (n + 2)).
+        { apply lab_lt_app; [eapply lab_lt_mono; [exact Hl|lia]|].
+          intros l [Hin|[Hin|[]]]; [inversion Hin; lia|discriminate]. }
+        pose proof (IHloop b (push_ctx (add_label (push_ctx cx) NBreak n)) (n + 2) cb nb w _ post (n + 1) n true s ev o s' vs base cx
+                      (push_ctx_ne _)
+                      (ctx_lt_push _ _ (ctx_lt_loop cx n Hclt)) (ctx_inj_push _ (ctx_inj_loop cx n Hne Hclt Hinj))
+                      E Hw' AL1 AL0 Hl'
+                      (hle_push _ (hle_add_label _ _ _ (hle_push _ Hh))) eq_refl Hr Hsm H1 ltac:(intros; reflexivity)) as C.
+        change ev with ([] ++ ev).
+        eapply claimG_prepend; [|exact C]. cbn [app]. rewrite <- ?app_assoc. cbn [app]. apply step_label.
+      + (* repeat *)
+        rewrite compile_repeatA in Hc. cbv zeta in Hc.
+        destruct (bin _ (n + 2) b false false [ICond]) as [[cb nb]|] eqn:E; [|discriminate].
+        cbn [obind] in Hc.
+        assert (Hp : pop_code (add_label (push_ctx cx) NBreak n) = []).
+        { cbn. unfold emit_truncate. rewrite Nat.ltb_irrefl. reflexivity. }
+        rewrite Hp, app_nil_r in Hc. inversion Hc; subst c n'. clear Hc.
+        cbn [run_stmt] in Hr.
+        destruct (bin_rng b _ _ _ _ _ _ _ (proj1 (proj2 compile_labsA) b) (add_label_ne _ _ _ (push_ctx_ne _)) noec_cond E) as (Hn & Hge & Hlt).
+        assert (AL1 : after_label (n + 1) w = Some (cb ++ [IJumpLast (n + 1) false; ILabel n] ++ post)).
+        { pose proof Hw as Hw0. unfold hide in Hw0. rewrite Hw0. rewrite after_label_skip; [|intro Hin; specialize (Hl _ Hin); lia].
+          cbn [app]. rewrite after_label_here. rewrite <- app_assoc. reflexivity. }
+        assert (AL0 : after_label n w = Some post).
+        { pose proof Hw as Hw0. unfold hide in Hw0. rewrite Hw0. rewrite after_label_skip; [|intro Hin; specialize (Hl _ Hin); lia].
+          cbn [app after_label]. destruct (Nat.eqb_spec n (n + 1)); [lia|].
+          rewrite <- app_assoc. rewrite after_label_skip; [|intro Hin; specialize (Hge _ Hin); lia].
+          cbn [app after_label]. rewrite Nat.eqb_refl. reflexivity. }
+        assert (Hw' : hide (w = (pre ++ [ILabel (n + 1)]) ++ cb ++ ([IJumpLast (n + 1) false; ILabel n] ++ post))).
+        { unfold hide in *. rewrite Hw. cbn [app]. rewrite <- ?app_assoc. cbn [app]. rewrite <- ?app_assoc. reflexivity. }
+        assert (Hl' : lab_lt (pre ++ [ILabel (n + 1)]) (n + 2)).
+        { apply lab_lt_app; [eapply lab_lt_mono; [exact Hl|lia]|].
+          intros l [Hin|[]]. inversion Hin; lia. }
+        pose proof (IHloopR b (add_label (push_ctx cx) NBreak n) (n + 2) cb nb w _ post (n + 1) n s ev o s' vs base cx
+                      (add_label_ne _ _ _ (push_ctx_ne _))
+                      (ctx_lt_loop cx n Hclt) (ctx_inj_loop cx n Hne Hclt Hinj)
+                      E Hw' AL1 AL0 Hl'
+                      (hle_add_label _ _ _ (hle_push _ Hh)) eq_refl Hr Hsm H1 ltac:(intros; reflexivity)) as C.
+        change ev with ([] ++ ev).
+        eapply claimG_prepend; [|exact C]. cbn [app]. rewrite <- ?app_assoc. cbn [app]. apply step_label.
+      + (* generic for *)
+        rewrite compile_forinA in Hc. cbv zeta in Hc.
+        destruct (bin _ (n + 2) b true false []) as [[cb nb]|] eqn:E; [|discriminate].
+        cbn [obind] in Hc.
+        assert (Hp : pop_code (add_label (add_height (push_ctx cx)) NBreak (n + 1)) = [IClTrunc (top_height cx)]).
+        { cbn. unfold emit_truncate. destruct (Nat.ltb_spec (top_height cx) (S (top_height cx))); [reflexivity|lia]. }
+        rewrite Hp in Hc. inversion Hc; subst c n'. clear Hc.
+        destruct (match v with VBad id => true | _ => false end) eqn:Hbad.
+        * destruct v as [| |id h|id]; try discriminate. cbn in Hr. inversion Hr; subst. clear Hr.
+          cbn [claimG]. exists [EvRaise EMissing], (VError EMissing), vs.
+          split.
+          { cbn [open_code forin_val app].
+            match goal with |- Term _ _ (IBad :: ?k) _ _ =>
+              pose proof (step_bad w base k vs _ (term_push_bad w base id _ vs)) as HT end.
+            cbn [pre3 app] in HT. exact HT. }
+          split; [exact I|]. split; [assumption|]. apply creln_refl. reflexivity.
+        * assert (Hv : forall id, forin_val v <> VBad id) by (intros id Hq; destruct v; discriminate).
+          assert (Er : run_stmt (S f) (SLoop (LForIn v) b) s =
+                       bind (run_loop f false b s) (fun ev o s' =>
+                         let (cev, o') := close_var v o in Done (open_var v ++ ev ++ cev, o', s'))).
+          { destruct v; try reflexivity. discriminate. }
+          rewrite Er in Hr. clear Er.
+          destruct (run_loop f false b s) as [[[ev_l o_l] s_l]|] eqn:Rl; [|discriminate]. cbn [bind] in Hr.
+          set (vin := set_stack vs (forin_val v :: stack vs)).
+          set (h := top_height cx) in *.
+          set (cx3 := add_label (add_height (push_ctx cx)) NBreak (n + 1)) in *.
+          set (LOOP := IJumpIf (n + 1) false false :: cb ++ [IJump n; ILabel (n + 1)] ++ IClTrunc h :: post).
+          assert (Hne3 : cx3 <> []) by discriminate.
+          destruct (bin_rng b _ _ _ _ _ _ _ (proj1 (proj2 compile_labsA) b) Hne3 noec_nil E) as (Hn & Hge & Hlt).
+          assert (NOL : forall l, ~ In (ILabel l) (open_code v ++ [IClPush (forin_val v)])).
+          { intros l Hin. destruct v; cbn in Hin; repeat (destruct Hin as [Hin|Hin]; [discriminate|]); destruct Hin. }
+          assert (Ew : w = (pre ++ open_code v ++ [IClPush (forin_val v)]) ++ ILabel n :: LOOP).
+          { pose proof Hw as Hw0. unfold hide in Hw0. rewrite Hw0. unfold LOOP.
+            cbn [app]. rewrite <- ?app_assoc. cbn [app]. rewrite <- ?app_assoc. cbn [app]. reflexivity. }
+          assert (NOP : forall l, In (ILabel l) (pre ++ open_code v ++ [IClPush (forin_val v)]) -> l < n).
+          { intros l Hin. apply in_app_or in Hin as [Hin|Hin]; [apply (Hl _ Hin)|exfalso; eapply NOL; exact Hin]. }
+          assert (AL1 : after_label n w = Some LOOP).
+          { rewrite Ew. rewrite after_label_skip; [|intro Hin; specialize (NOP _ Hin); lia]. apply after_label_here. }
+          assert (AL0 : after_label (n + 1) w = Some (IClTrunc h :: post)).
+          { rewrite Ew. rewrite after_label_skip; [|intro Hin; specialize (NOP _ Hin); lia].
+            unfold LOOP. cbn [after_label]. destruct (Nat.eqb_spec (n + 1) n); [lia|].
+            rewrite after_label_skip; [|intro Hin; specialize (Hge _ Hin); lia].
+            cbn [app after_label]. rewrite Nat.eqb_refl. reflexivity. }
+          assert (Hw' : hide (w = (pre ++ open_code v ++ [IClPush (forin_val v); ILabel n; IJumpIf (n + 1) false false])
+                                  ++ cb ++ ([IJump n; ILabel (n + 1)] ++ IClTrunc h :: post))).
+          { unfold hide. rewrite Ew. unfold LOOP. cbn [app]. rewrite <- ?app_assoc. cbn [app]. rewrite <- ?app_assoc. cbn [app]. reflexivity. }
+          assert (Hl' : lab_lt (pre ++ open_code v ++ [IClPush (forin_val v); ILabel n; IJumpIf (n + 1) false false]) (n + 2)).
+          { intros l Hin. apply in_app_or in Hin as [Hin|Hin]; [specialize (Hl _ Hin); lia|].
+            apply in_app_or in Hin as [Hin|Hin].
+            - exfalso. destruct v; cbn in Hin; repeat (destruct Hin as [Hin|Hin]; [discriminate|]); destruct Hin.
+            - cbn in Hin. destruct Hin as [Hin|[Hin|[Hin|[]]]]; [discriminate|inversion Hin; lia|discriminate]. }
+          assert (Hsm' : sm s vin) by exact Hsm.
+          assert (H1' : length (stack vin) = base + top_height cx3) by (cbn; lia).
+          assert (Hclt3 : ctx_lt cx3 (n + 2)).
+          { apply ctx_lt_add_label; [|lia]. apply ctx_lt_add_height. eapply ctx_lt_mono; [apply ctx_lt_push; exact Hclt|lia]. }
+          assert (Hinj3 : ctx_inj cx3).
+          { unfold cx3. eapply (ctx_inj_add_label _ NBreak (n + 1) n); [discriminate| | |lia].
+            - apply ctx_inj_add_height, ctx_inj_push. exact Hinj.
+            - apply ctx_lt_add_height, ctx_lt_push. exact Hclt. }
+          pose proof (IHloop b cx3 (n + 2) cb nb w _ (IClTrunc h :: post) n (n + 1) false s ev_l o_l s_l vin base cx
+                        Hne3 Hclt3 Hinj3 E Hw' AL1 AL0 Hl' (hle_add_label _ _ _ (hle_add_height _ (hle_push _ Hh))) eq_refl Rl Hsm' H1'
+                        ltac:(intros; reflexivity)) as C.
+          pose proof (leave_pushed w base cx cx false (forin_val v) LOOP post vs vin ev_l o_l s_l eq_refl Hh H1
+                        ltac:(intro; reflexivity) C) as D.
+          rewrite close_var_forin in D.
+          destruct (close_var v o_l) as [cev o'] eqn:Ecv. cbn [fst snd] in D. injection Hr as <- <- <-.
+          assert (PRE : Reach w base ((open_code v ++ [IClPush (forin_val v); ILabel n] ++ LOOP)) vs LOOP vin (open_var v)).
+          { destruct v as [| |id hh|id]; cbn [open_code open_var forin_val app].
+            - change (@nil event) with (@nil event ++ []). eapply Reach_trans; [apply step_push; discriminate|apply step_label].
+            - change (@nil event) with (@nil event ++ []). eapply Reach_trans; [apply step_push; discriminate|apply step_label].
+            - change [EvOpen id] with ([EvOpen id] ++ ([] ++ [])).
+              eapply Reach_trans; [apply step_open|]. eapply Reach_trans; [apply step_push; discriminate|apply step_label].
+            - discriminate. }
+          eapply claimG_prepend; [|exact D].
+          unfold LOOP in *. cbn [app] in *. rewrite <- ?app_assoc. cbn [app]. rewrite <- ?app_assoc. cbn [app]. exact PRE.
+    - (* SIf *)
+      rewrite compile_ifA in Hc.
+      destruct (bin (push_ctx cx) (n + 2) b true false []) as [[cb nb]|] eqn:E; [|discriminate].
+      cbn [obind] in Hc. rewrite pop_code_push, app_nil_r in Hc. inversion Hc; subst c n'. clear Hc.
+      cbn [run_stmt] in Hr.
+      destruct (next_decision s) as [d s1] eqn:Ed.
+      pose proof (vnext_sm s vs Hsm) as Hvn. rewrite Ed in Hvn. cbn [fst snd] in Hvn.
+      destruct (bin_rng b _ _ _ _ _ _ _ (proj1 (proj2 compile_labsA) b) (push_ctx_ne _) noec_nil E) as (Hn & Hge & Hlt).
+      assert (AL1 : after_label (n + 1) w = Some ([ILabel n] ++ post)).
+      { pose proof Hw as Hw0. unfold hide in Hw0. rewrite Hw0. rewrite after_label_skip; [|intro Hin; specialize (Hl _ Hin); lia].
+        cbn [app after_label]. rewrite <- app_assoc.
+        rewrite after_label_skip; [|intro Hin; specialize (Hge _ Hin); lia].
+        cbn [app after_label]. rewrite Nat.eqb_refl. reflexivity. }
+      cbn [app]. rewrite <- app_assoc. cbn [app].
+      destruct d.
+      + assert (Hw' : hide (w = (pre ++ [IJumpIf (n + 1) true false]) ++ cb ++ ([ILabel (n + 1); ILabel n] ++ post))).
+        { unfold hide in *. rewrite Hw. cbn [app]. rewrite <- ?app_assoc. cbn [app]. rewrite <- ?app_assoc. reflexivity. }
+        assert (Hl' : lab_lt (pre ++ [IJumpIf (n + 1) true false]) (n + 2)).
+        { apply lab_lt_app; [eapply lab_lt_mono; [exact Hl|lia]|]. intros l [Hin|[]]. discriminate. }
+        pose proof (BS b (push_ctx cx) (n + 2) true false false [] cb nb w _ ([ILabel (n + 1); ILabel n] ++ post)
+                      s1 ev o s' (withst vs s1) base (or_introl (conj eq_refl eq_refl)) ltac:(discriminate) (push_ctx_ne cx)
+                      (ctx_lt_mono (push_ctx cx) n (n + 2) (ctx_lt_push _ _ Hclt) (Nat.le_add_r n 2)) (ctx_inj_push _ Hinj) E Hw' Hl' (hle_push _ Hh) Hr (sm_withst _ _) H1) as C.
+        change ev with ([] ++ ev). eapply claimG_prepend; [eapply step_jumpif_not; [exact Hvn|reflexivity]|].
+        eapply claimG_vb; [apply (stack_withst vs s1)|].
+        eapply claimG_ctx; [instantiate (1 := push_ctx cx); destruct o; cbn [ctx_agree]; try exact I; reflexivity|].
+        destruct o; cbn [claimG] in *; try exact C.
+        rewrite <- (app_nil_r ev). eapply Reach_trans; [exact C|].
+        change (@nil event) with (@nil event ++ []). eapply Reach_trans; apply step_label.
+      + inversion Hr; subst. clear Hr. cbn [claimG].
+        change (@nil event) with (@nil event ++ []).
+        eapply Reach_trans; [eapply step_jumpif_taken; [exact Hvn|reflexivity|exact AL1]|apply step_label].
+    - (* SBreak *)
+      destruct (JUMP NBreak eq_refl) as (L & h & Hj & Hb & HR & ->).
+      cbn in Hr. inversion Hr; subst. clear Hr. cbn [claimG]. rewrite (withst_sm _ _ Hsm).
+      exists L, h. auto.
+    - (* SGoto *)
+      destruct (JUMP (NUser l) eq_refl) as (L & h & Hj & Hb & HR & ->).
+      cbn in Hr. inversion Hr; subst. clear Hr. cbn [claimG]. rewrite (withst_sm _ _ Hsm).
+      exists L, h. auto.
+    - (* SLabel *)
+      cbn [compile_stmt] in Hc. destruct (get_label cx (NUser l)) as [x|]; [|discriminate]. cbn [obind] in Hc.
+      inversion Hc; subst. cbn in Hr. inversion Hr; subst. cbn [claimG app]. rewrite (withst_sm _ _ Hsm). apply step_label.
+    - (* SMark *)
+      cbn in Hc, Hr. inversion Hc; subst. inversion Hr; subst. cbn [claimG app]. rewrite (withst_sm _ _ Hsm). apply step_mark.
+    - (* SCall *)
+      rewrite compile_call_eq in Hc.
+      destruct (compile_fun b) as [c'|] eqn:Ef; [|discriminate]. cbn [obind] in Hc. inversion Hc; subst. clear Hc.
+      cbn [run_stmt] in Hr.
+      destruct (run_scope f false b b s) as [[[ev0 o0] s0]|] eqn:E; [|discriminate]. cbn [bind] in Hr.
+      pose proof (Hfun b c' s ev0 o0 s0 vs Ef E Hsm) as Hres.
+      destruct o0; cbn [fun_outcome] in Hr; injection Hr as <- <- <-; cbn [fun_result claimG app] in *; try contradiction.
+      + apply step_call_ret. exact Hres.
+      + apply step_call_ret. exact Hres.
+      + eapply (fun_result_abort c' vs _ _ _ w base); cycle 3.
+        { exact Hres. }
+        { intros evV oV sV HT Ho. apply term_call_abort; assumption. }
+        { lia. }
+        { exact I. }
+      + eapply (fun_result_abort c' vs _ _ _ w base); cycle 3.
+        { exact Hres. }
+        { intros evV oV sV HT Ho. apply term_call_abort; assumption. }
+        { lia. }
+        { exact I. }
+    - (* SPcall *)
+      rewrite compile_pcall_eq in Hc.
+      destruct (compile_fun b) as [c'|] eqn:Ef; [|discriminate]. cbn [obind] in Hc. inversion Hc; subst. clear Hc.
+      cbn [run_stmt] in Hr.
+      destruct (run_scope f false b b s) as [[[ev0 o0] s0]|] eqn:E; [|discriminate]. cbn [bind] in Hr.
+      pose proof (Hfun b c' s ev0 o0 s0 vs Ef E Hsm) as Hres.
+      assert (NORMAL : Term c' (length (stack vs)) c' vs (ev0, VReturn, withst vs s0) ->
+                       Reach w base ([IPcall c'] ++ post) vs post (withst vs s0) (ev0 ++ [EvPcall None])).
+      { intro HT.
+        assert (Hl0 : length (stack (withst vs s0)) <= length (stack vs)) by (rewrite stack_withst; lia).
+        exact (step_pcall w base c' post vs ev0 VReturn (withst vs s0) [] (stack vs) None HT (or_introl eq_refl)
+                 (cleanup_nothing _ _ None Hl0)). }
+      destruct o0; cbn [fun_outcome] in Hr; injection Hr as <- <- <-; cbn [fun_result claimG] in *; try contradiction.
+      + apply NORMAL. exact Hres.
+      + apply NORMAL. exact Hres.
+      + destruct Hres as (evV & oV & sV & HT & Hk & Hs & Hcr).
+        destruct oV; cbn in Hk; try contradiction.
+        unfold creln in Hcr. cbn [verr err_of] in Hcr.
+        rewrite (cleanup_nothing (stack vs) (length (stack vs)) (Some e) ltac:(lia)) in Hcr.
+        destruct (cleanup (stack sV) (length (stack vs)) (Some e0)) as [[c1 r1] e1] eqn:Ec.
+        destruct Hcr as (H2 & -> & ->). rewrite app_nil_r in H2.
+        pose proof (step_pcall w base c' post vs evV (VError e0) sV c1 (stack vs) (Some e) HT
+                      (or_intror (ex_intro _ e0 eq_refl)) Ec) as HR.
+        rewrite app_assoc, H2 in HR.
+        assert (Es : set_stack sV (stack vs) = withst vs s0).
+        { destruct Hs as (A & B & C0). destruct sV; cbn in *. subst. reflexivity. }
+        rewrite Es in HR. exact HR.
+      + eapply (fun_result_abort c' vs _ _ _ w base); cycle 3.
+        { exact Hres. }
+        { intros evV oV sV HT Ho.
+          destruct Hres as (evV' & oV' & sV' & HT' & Hk & _).
+          pose proof (Term_det _ _ _ _ _ _ HT HT') as EE. injection EE as -> -> ->.
+          destruct oV'; cbn in Hk; try contradiction. apply term_pcall_closed. exact HT. }
+        { lia. }
+        { exact I. }
+    - (* SCoro *)
+      rewrite compile_coro_eq in Hc.
+      destruct (compile_fun b) as [c'|] eqn:Ef; [|discriminate]. cbn [obind] in Hc. inversion Hc; subst. clear Hc.
+      cbn [run_stmt] in Hr.
+      destruct (run_scope f false b b (mkSt (ds s) k (lastc s))) as [[[ev0 o0] s0]|] eqn:E; [|discriminate].
+      cbn [bind] in Hr. inversion Hr; subst. clear Hr. cbn [claimG app].
+      set (vs0 := mkV [] (vds vs) k (vlast vs)).
+      assert (Hsm0 : sm (mkSt (ds s) k (lastc s)) vs0).
+      { destruct Hsm as (A & B & C0). repeat split; cbn; assumption. }
+      pose proof (Hfun b c' _ ev0 o0 s0 vs0 Ef E Hsm0) as Hres.
+      assert (Efin : forall sV, sm s0 sV ->
+                mkV (stack vs) (vds sV) (vyc vs) (vlast sV) = withst vs (mkSt (ds s0) (yc s) (lastc s0))).
+      { intros sV (A & B & C0). destruct Hsm as (A' & B' & C'). unfold withst. cbn. rewrite A, C0, B'. reflexivity. }
+      assert (NORMAL : Term c' 0 c' vs0 (ev0, VReturn, withst vs0 s0) ->
+                       Reach w base (ICoro c' k :: post) vs post (withst vs (mkSt (ds s0) (yc s) (lastc s0)))
+                         (ev0 ++ [EvCo None])).
+      { intro HT.
+        pose proof (step_coro w base c' k post vs ev0 VReturn (withst vs0 s0) [] [] None HT ltac:(discriminate) eq_refl) as HR.
+        rewrite (Efin (withst vs0 s0) (sm_withst _ _)) in HR. exact HR. }
+      destruct o0; cbn [fun_outcome err_of fun_result] in *; try contradiction.
+      + apply NORMAL. exact Hres.
+      + apply NORMAL. exact Hres.
+      + destruct Hres as (evV & oV & sV & HT & Hk & Hs & Hcr).
+        unfold creln in Hcr. unfold vs0 in Hcr. cbn [stack cleanup err_of length] in Hcr.
+        destruct (cleanup (stack sV) 0 (verr oV)) as [[c1 r1] e1] eqn:Ec.
+        destruct Hcr as (H2 & -> & ->). rewrite app_nil_r in H2.
+        pose proof (step_coro w base c' k post vs evV oV sV c1 [] (Some e) HT
+                      ltac:(destruct oV; cbn in Hk; try contradiction; discriminate) Ec) as HR.
+        rewrite app_assoc, H2 in HR. rewrite (Efin sV Hs) in HR. exact HR.
+      + destruct Hres as (evV & oV & sV & HT & Hk & Hs & Hcr).
+        unfold creln in Hcr. unfold vs0 in Hcr. cbn [stack cleanup err_of length] in Hcr.
+        destruct (cleanup (stack sV) 0 (verr oV)) as [[c1 r1] e1] eqn:Ec.
+        destruct Hcr as (H2 & -> & ->). rewrite app_nil_r in H2.
+        pose proof (step_coro w base c' k post vs evV oV sV c1 [] e HT
+                      ltac:(destruct oV; cbn in Hk; try contradiction; discriminate) Ec) as HR.
+        rewrite app_assoc, H2 in HR. rewrite (Efin sV Hs) in HR. exact HR.
+    - (* SYield *)
+      cbn in Hc. inversion Hc; subst. clear Hc. cbn [run_stmt] in Hr.
+      destruct Hsm as (A & B & C0).
+      destruct (yc s) as [[|j]|] eqn:Ey; inversion Hr; subst; clear Hr; cbn [claimG app].
+      + exists [], VClosed, vs. split; [apply term_yield_closed; congruence|].
+        split; [exact I|]. split; [repeat split; congruence|]. apply creln_refl. reflexivity.
+      + assert (Ev : mkV (stack vs) (vds vs) (Some j) (vlast vs) = withst vs (mkSt (ds s) (Some j) (lastc s))).
+        { unfold withst. cbn. rewrite A, C0. reflexivity. }
+        rewrite <- Ev. apply step_yield_go. congruence.
+      + rewrite (withst_sm s' vs ltac:(repeat split; congruence)). apply step_yield_none. congruence.
+    - (* SRaise *)
+      cbn in Hc, Hr. inversion Hc; subst. inversion Hr; subst. cbn [claimG app].
+      exists [EvRaise (EUser e)], (VError (EUser e)), vs. split; [apply term_raise|].
+      split; [exact I|]. split; [assumption|]. apply creln_refl. reflexivity. }
+  repeat split; assumption.
+Qed.
+
+
+(* ---------------------------------------------------------------- compile_correct *)
+(* THE compiler-correctness theorem of the close-stack slice, for the whole
+   skeleton language without restriction: blocks, locals of all kinds,
+   `local <close>`, while / repeat / generic for (closing value), break, goto and
+   labels anywhere (labels declared per scope by getLabels, back labels by
+   getBackLabels, restart at a label, the eager truncation of a jump to a back
+   label against the reference semantics' lazy closing), if, calls, `return f()`
+   with and without pending closes, nested pcall, coroutines closed while
+   suspended, yield, raise, return.  For every program, decision stream and fuel
+   on which the reference semantics terminates: if the program compiles, the
+   close-stack VM run on the compiled code terminates with the same events and
+   the same outcome. *)
+Theorem compile_correct : forall b fuel d ev o c,
+  run_ref fuel b d = Done (ev, o) -> compile b = Some c ->
+  exists fuel', run_vm fuel' c d = Done (ev, vout_of o).
+Proof.
+  intros b fuel d ev o c Hr Hc.
+  pose proof (run_ref_normal _ _ _ _ _ Hr) as ->. cbn [vout_of].
+  unfold compile in Hc. destruct (compile_fun b) as [c'|] eqn:Ef; [|discriminate]. cbn in Hc. inversion Hc; subst c. clear Hc.
+  unfold run_ref in Hr.
+  destruct (run_stmt fuel (SPcall b) (mkSt d None false)) as [[[ev0 o0] s0]|] eqn:E; [|discriminate].
+  inversion Hr; subst. clear Hr.
+  destruct (sim_all fuel) as (PS & _).
+  set (vs := mkV [] d None false).
+  assert (Hcs : compile_stmt root_ctx 0 (SPcall b) = Some ([IPcall c'], 0)).
+  { rewrite compile_pcall_eq, Ef. reflexivity. }
+  pose proof (PS (SPcall b) root_ctx 0 [IPcall c'] 0 ([IPcall c'] ++ [IRet]) [] [IRet]
+                (mkSt d None false) ev ONormal s0 vs 0 ltac:(discriminate) (ctx_lt_root 0) ctx_inj_root Hcs eq_refl
+                ltac:(intros l []) hle_root E ltac:(repeat split) eq_refl) as C.
+  unfold claim in C. cbn [claimG] in C.
+  pose proof (term_ret ([IPcall c'] ++ [IRet]) 0 [] (withst vs s0) [] [] None eq_refl) as T.
+  apply C in T. cbn [pre3] in T. rewrite app_nil_r in T.
+  destruct T as [F0 HF]. exists F0. unfold run_vm. fold vs. rewrite (HF F0 (le_n _)). reflexivity.
+Qed.
+
+(* non-vacuity: a program with a back label (`goto continue` past a <close> local declared
+   directly in the loop body), a label after a local, a backward goto, a repeat and a generic for
+   — it compiles and the reference semantics terminates on it *)
+Example compile_correct_example :
+  let body := BCons (SLocal (VObj 2 (Some 7))) (BCons (SIf (BCons (SGoto 5) BNil)) (BCons (SMark 3) (BCons (SLabel 5) BNil))) in
+  let b := BCons (SLabel 1)
+            (BCons (SLocal (VObj 1 None))
+              (BCons (SLabel 2)
+                (BCons (SLoop LWhile body)
+                  (BCons (SIf (BCons (SGoto 1) BNil))
+                    (BCons (SLoop (LForIn (VObj 9 None)) (BCons (SLoop LRepeat (BCons SBreak BNil)) BNil)) BNil))))) in
+  (exists r, run_ref 300 b [true; true; false; false] = Done r) /\ exists c, compile b = Some c.
+Proof. split; [eexists; vm_compute; reflexivity|]. eexists. vm_compute. reflexivity. Qed.
